@@ -26,13 +26,16 @@ structure ArmorWEnv (δ ω : Type) where
   /-- what has been written INTO the encoder, and what the encoder has appended to the destination -/
   absI : ω → Bytes
   absO : ω → Bytes
+  /-- the encoder has not been closed: only then do its `Write` and `Close` behave as described (a
+      closed base64 encoder has flushed its padding; nothing is claimed about what it does next) -/
+  isOpen : ω → Prop
   W : δ → Bytes → Go.M (Int × Option Go.Err × δ)
   hW : ∀ d b, ∃ d', W d b = .ok (Int.ofNat b.length, none, d') ∧ absD d' = absD d ++ b
   Wr : ω → Bytes → δ → Go.M (Int × Option Go.Err × ω × δ)
-  hWr : ∀ ww p d, ∃ ww' d' x, Wr ww p d = .ok (Int.ofNat p.length, none, ww', d') ∧
-          absD d' = absD d ++ x ∧ absO ww' = absO ww ++ x ∧ absI ww' = absI ww ++ p
+  hWr : ∀ ww p d, isOpen ww → ∃ ww' d' x, Wr ww p d = .ok (Int.ofNat p.length, none, ww', d') ∧
+          absD d' = absD d ++ x ∧ absO ww' = absO ww ++ x ∧ absI ww' = absI ww ++ p ∧ isOpen ww'
   Cl : ω → δ → Go.M (Option Go.Err × ω × δ)
-  hCl : ∀ ww d, ∃ ww' d' x, Cl ww d = .ok (none, ww', d') ∧
+  hCl : ∀ ww d, isOpen ww → ∃ ww' d' x, Cl ww d = .ok (none, ww', d') ∧
           absD d' = absD d ++ x ∧ absO ww' = absO ww ++ x ∧ absI ww' = absI ww ∧
           absO ww' = Format.wrap (B64.encStd (absI ww))
   LE : ω → Go.M Bool
@@ -51,6 +54,7 @@ def armorWrites {δ ω : Type} (E : ArmorWEnv δ ω) : armor_armoredWriter ω δ
 structure AWInv {δ ω : Type} (E : ArmorWEnv δ ω) (a : armor_armoredWriter ω δ) (I pre : Bytes) : Prop where
   closed : a.closed = false
   absI : E.absI a.encoder = I
+  op : E.isOpen a.encoder
   st : (a.started = false ∧ I = [] ∧ E.absO a.encoder = [] ∧ E.absD a.dst = pre) ∨
        (a.started = true ∧ E.absD a.dst = pre ++ Armor.header ++ [Format.nl] ++ E.absO a.encoder)
 
@@ -67,28 +71,28 @@ theorem armor_write_inv {δ ω : Type} (E : ArmorWEnv δ ω) (a : armor_armoredW
     ∃ a', armor_armoredWriter_Write E.W E.Wr a p = .ok (Int.ofNat p.length, none, a') ∧
       AWInv E a' (I ++ p) pre := by
   obtain ⟨st, cl, enc, d⟩ := a
-  obtain ⟨hc, hI, hst⟩ := h
-  simp only at hc hI hst
+  obtain ⟨hc, hI, hop, hst⟩ := h
+  simp only at hc hI hop hst
   cases st with
   | false =>
     rcases hst with ⟨_, hI0, hO, hD⟩ | ⟨h1, _⟩
     · obtain ⟨d', hw, hd'⟩ := E.hW d (Armor.header ++ [Format.nl])
-      obtain ⟨ww', d'', x, hwr, hdd, hoo, hii⟩ := E.hWr enc p d'
+      obtain ⟨ww', d'', x, hwr, hdd, hoo, hii, hop'⟩ := E.hWr enc p d' hop
       refine ⟨⟨true, cl, ww', d''⟩, ?_, ?_⟩
       · simp only [armor_armoredWriter_Write, armor_header_lit, hw, hwr, bind, Except.bind, pure, Except.pure]
         rfl
-      · refine ⟨hc, ?_, Or.inr ⟨rfl, ?_⟩⟩
+      · refine ⟨hc, ?_, hop', Or.inr ⟨rfl, ?_⟩⟩
         · simp only [hii, hI]
         · simp only [hdd, hd', hoo, hD, hO, List.append_assoc, List.nil_append]
     · cases h1
   | true =>
     rcases hst with ⟨h1, _⟩ | ⟨_, hD⟩
     · cases h1
-    · obtain ⟨ww', d'', x, hwr, hdd, hoo, hii⟩ := E.hWr enc p d
+    · obtain ⟨ww', d'', x, hwr, hdd, hoo, hii, hop'⟩ := E.hWr enc p d hop
       refine ⟨⟨true, cl, ww', d''⟩, ?_, ?_⟩
       · simp only [armor_armoredWriter_Write, hwr, bind, Except.bind, pure, Except.pure]
         rfl
-      · refine ⟨hc, ?_, Or.inr ⟨rfl, ?_⟩⟩
+      · refine ⟨hc, ?_, hop', Or.inr ⟨rfl, ?_⟩⟩
         · simp only [hii, hI]
         · simp only [hdd, hoo, hD, List.append_assoc]
 
@@ -108,11 +112,11 @@ theorem armor_writes_inv {δ ω : Type} (E : ArmorWEnv δ ω) (ps : List Bytes) 
 
 /-- Close on a started, open writer -/
 theorem armor_close_started {δ ω : Type} (E : ArmorWEnv δ ω) (enc : ω) (d : δ) (I pre : Bytes)
-    (hI : E.absI enc = I)
+    (hI : E.absI enc = I) (hop : E.isOpen enc)
     (hD : E.absD d = pre ++ Armor.header ++ [Format.nl] ++ E.absO enc) :
     ∃ a2, armor_armoredWriter_Close E.W E.Cl E.LE ⟨true, false, enc, d⟩ = .ok (none, a2) ∧ a2.closed = true ∧
       E.absD a2.dst = pre ++ Armor.armor I := by
-  obtain ⟨ww', d2, x, hcl, hd2, ho2, hi2, hwrap⟩ := E.hCl enc d
+  obtain ⟨ww', d2, x, hcl, hd2, ho2, hi2, hwrap⟩ := E.hCl enc d hop
   have hle := E.hLE ww'
   rw [hi2, hI] at hle
   rw [hI] at hwrap
@@ -133,8 +137,8 @@ theorem armor_close_inv {δ ω : Type} (E : ArmorWEnv δ ω) (a : armor_armoredW
     ∃ a2, armor_armoredWriter_Close E.W E.Cl E.LE a = .ok (none, a2) ∧ a2.closed = true ∧
       E.absD a2.dst = pre ++ Armor.armor I := by
   obtain ⟨st, cl, enc, d⟩ := a
-  obtain ⟨hc, hI, hst⟩ := h
-  simp only at hc hI hst
+  obtain ⟨hc, hI, hop, hst⟩ := h
+  simp only at hc hI hop hst
   subst hc
   cases st with
   | false =>
@@ -146,12 +150,12 @@ theorem armor_close_inv {δ ω : Type} (E : ArmorWEnv δ ω) (a : armor_armoredW
           armor_armoredWriter_Close E.W E.Cl E.LE ⟨true, false, enc, d'⟩ := by
         simp [armor_armoredWriter_Close, armor_header_lit, hw, bind, Except.bind, pure, Except.pure]
       rw [heq]
-      exact armor_close_started E enc d' I pre hI hD'
+      exact armor_close_started E enc d' I pre hI hop hD'
     · cases h1
   | true =>
     rcases hst with ⟨h1, _⟩ | ⟨_, hD⟩
     · cases h1
-    · exact armor_close_started E enc d I pre hI hD
+    · exact armor_close_started E enc d I pre hI hop hD
 
 theorem armor_close_closed {δ ω : Type} (E : ArmorWEnv δ ω) (a : armor_armoredWriter ω δ)
     (h : a.closed = true) :
@@ -159,16 +163,38 @@ theorem armor_close_closed {δ ω : Type} (E : ArmorWEnv δ ω) (a : armor_armor
   simp only [armor_armoredWriter_Close, h, if_true, pure, Except.pure]
 
 theorem armor_writer_tie {δ ω : Type} (E : ArmorWEnv δ ω) (ww0 : ω) (d0 : δ)
-    (h0 : E.absI ww0 = [] ∧ E.absO ww0 = []) (ps : List Bytes) :
+    (h0 : E.absI ww0 = [] ∧ E.absO ww0 = [] ∧ E.isOpen ww0) (ps : List Bytes) :
     ∃ a1 a2, armorWrites E ⟨false, false, ww0, d0⟩ ps = .ok (none, a1) ∧
       armor_armoredWriter_Close E.W E.Cl E.LE a1 = .ok (none, a2) ∧
       E.absD a2.dst = E.absD d0 ++ Armor.armor ps.flatten ∧
       armor_armoredWriter_Close E.W E.Cl E.LE a2 = .ok (some ⟨"armor.(*armoredWriter).Close", 0, []⟩, a2) := by
   have hinv : AWInv E (⟨false, false, ww0, d0⟩ : armor_armoredWriter ω δ) [] (E.absD d0) :=
-    ⟨rfl, h0.1, Or.inl ⟨rfl, rfl, h0.2, rfl⟩⟩
+    ⟨rfl, h0.1, h0.2.2, Or.inl ⟨rfl, rfl, h0.2.1, rfl⟩⟩
   obtain ⟨a1, hr, h1⟩ := armor_writes_inv E ps _ _ _ hinv
   obtain ⟨a2, hc, hcl, hd⟩ := armor_close_inv E a1 _ _ h1
   exact ⟨a1, a2, hr, hc, by simpa using hd, armor_close_closed E a2 hcl⟩
+
+/-- the assumptions are satisfiable: an encoder that buffers everything and emits the whole wrapped
+    text when it is closed (state: the input so far, and whether it has been closed), over a
+    destination that is the list of bytes written to it -/
+def ArmorWEnv.canonical : ArmorWEnv Bytes (Bytes × Bool) where
+  absD d := d
+  absI ww := ww.1
+  absO ww := if ww.2 then Format.wrap (B64.encStd ww.1) else []
+  isOpen ww := ww.2 = false
+  W d b := .ok (Int.ofNat b.length, none, d ++ b)
+  hW d b := ⟨d ++ b, rfl, rfl⟩
+  Wr ww p d := .ok (Int.ofNat p.length, none, (ww.1 ++ p, ww.2), d)
+  hWr ww p d h := ⟨(ww.1 ++ p, ww.2), d, [], rfl, by simp, by simp [h], rfl, h⟩
+  Cl ww d := .ok (none, (ww.1, true), d ++ Format.wrap (B64.encStd ww.1))
+  hCl ww d h := ⟨(ww.1, true), d ++ Format.wrap (B64.encStd ww.1), Format.wrap (B64.encStd ww.1), rfl, rfl, by simp [h], rfl, by simp⟩
+  LE ww := .ok (decide ((B64.encStd ww.1).length % 64 = 0))
+  hLE _ := rfl
+
+/-- and its fresh state meets the premises of `armor_writer_tie` -/
+theorem ArmorWEnv.canonical_fresh :
+    ArmorWEnv.canonical.absI ([], false) = [] ∧ ArmorWEnv.canonical.absO ([], false) = [] ∧
+      ArmorWEnv.canonical.isOpen ([], false) := ⟨rfl, rfl, rfl⟩
 
 end GoTie
 end AgeModel
